@@ -36,10 +36,11 @@ def gen_case(rng, tier, idx):
     kind = rng.choice(["field", "field", "irr_neutral", "irr_off", "harvest", "combo", "combo"])
     if kind in ("irr_neutral",) or (kind == "combo" and rng.random() < 0.5):
         prof["irr_methods"] = [0]
-    if kind in ("field", "combo") and rng.random() < 0.5:
+    wet = kind in ("field", "combo") and rng.random() < 0.5
+    if wet:
         # the code paths that read bund / mulch / curve-number settings run on wet days: ponding, saturation excess backing
         # up to the surface, runoff - make them happen (slowly draining soils, wet climates, storms, wet starts)
-        prof.update({"soils": ["Paddy", "Clay", "SiltClay", "SandyClay", "ClayLoam"], "archetypes": ["tropical", "temperate"], "station_p": 0.0,
+        prof.update({"soils": ["Paddy", "Paddy", "Paddy", "Clay", "SiltClay", "SandyClay", "ClayLoam"], "archetypes": ["tropical", "temperate"], "station_p": 0.0,
                      "event_kinds": ["storm", "storm", "wet_spell"], "events_per_year": 4.0, "sat_start_p": 0.5, "custom_soil_p": 0.0,
                      "n_seasons": [1, 2, 3], "off_season_p": 0.7})
     pond = idx % 4 == 1
@@ -55,7 +56,7 @@ def gen_case(rng, tier, idx):
     toggles = []
 
     def field_toggle(which):
-        t = rng.choice(FIELD_TOGGLES)
+        t = rng.choice(FIELD_TOGGLES + (["bund_params_off", "bund_params_off"] if wet else []))
         args = {"mulch_pct": rng.choice([10, 80, 100]), "f_mulch": rng.choice([0.3, 1.0]), "z_bund": rng.choice([0.1, 0.3]),
                 "bund_water": rng.choice([0, 50, 200]), "pct": rng.choice([-30, -10, 15, 30])}
         return {"t": t, "which": which, "args": args}
